@@ -1,14 +1,14 @@
 """C10 -- outputs are a function of the inputs only; no memory errors on valid input."""
 import random
 from fractions import Fraction as F
-from vcheck import fmt_q
+from vcheck import fmt_q, fmt_crs
 import gen
 from props import amg_common as ac
 from props.common import account, diff_run
 
 COARS = ac.COARSENINGS
 DRIVERS = ["amgd_%s@poison" % c for c in COARS] + ["amg_%s@poison" % c for c in COARS] + ["amgd_%s@asan" % c for c in COARS] + \
-          ["own", "own@asan"]
+          ["own", "own@asan", "ll2", "ll2@poison", "ll2@asan"]
 EXTRA_FLAGS = {"@poison": ["-DVQ_POISON"],
                "@asan": ["-fsanitize=address,undefined", "-fno-sanitize-recover=all", "-fno-omit-frame-pointer", "-g"],
                "own@asan": ["-DOWN_NO_TRACKER"]}
@@ -180,12 +180,119 @@ def run_own(ctx, lines):
         f.setdefault("input_class", "own-sequence"); f["site"] = "crs::own_data"; f["build"] = "own"
     return fails
 
+# ------------------------------------------------------------------ C10-A2, second layer: LowLevel2*.v
+def _rq(r, integer):
+    if integer: return F(r.choice([-3, -2, -1, 1, 2, 3, 4, 5]))
+    return F(r.randint(-9, 9) or 1, r.choice([1, 1, 2, 3, 5]))
+
+def _rrows(r, n, m, maxlen, integer, dup=True):
+    rows = []
+    for _ in range(n):
+        k = 0 if m == 0 else r.choice([0, 1, 2, 3, maxlen, r.randint(0, maxlen)])
+        if dup: cols = [r.randrange(m) for _ in range(k)]
+        else: cols = r.sample(range(m), min(k, m))
+        rows.append([(c, _rq(r, integer)) for c in cols])
+    return rows
+
+def _crs(n, m, rows):
+    return fmt_crs(n, m, rows)
+
+def ll2_cases(tier, seed):
+    """case lines of the array-level kernels: each input is used once with exact rationals (ll_) and
+    once with small integers for the double instantiation (lld_)"""
+    r = random.Random(seed * 1000 + 210)
+    out = []; k = 0
+    def both(name, mk):
+        nonlocal k
+        for integer, pre in ((False, "ll_"), (True, "lld_")):
+            out.append("L%d %s%s %s" % (k, pre, name, mk(integer))); k += 1
+    # --- sort_rows: degenerate inputs first
+    fixed_sort = [(0, 0, []), (0, 3, []), (1, 1, [[(0, F(3))]]), (1, 1, [[]]), (3, 4, [[], [], []]),
+                  (2, 5, [[(4, F(1)), (3, F(2)), (2, F(3)), (1, F(4)), (0, F(5))], [(0, F(1)), (1, F(2)), (2, F(3))]]),
+                  (2, 3, [[(1, F(1)), (1, F(2)), (1, F(3)), (0, F(4)), (1, F(5))], [(2, F(7)), (2, F(8))]]),
+                  (3, 3, [[(0, F(2))], [(1, F(3))], [(2, F(4))]]),
+                  (3, 3, [[(1, F(1)), (0, F(2))], [], [(2, F(1)), (1, F(1)), (0, F(1))]])]
+    for n, m, rows in fixed_sort:
+        both("sort_rows", lambda integer, n=n, m=m, rows=rows: _crs(n, m, rows))
+    N = 150 if tier == "quick" else 1500
+    for _ in range(N):
+        n = r.choice([0, 1, 2, 3, 5, 8]); m = r.choice([1, 2, 3, 6, 12])
+        st = r.getrandbits(48)
+        def mk(integer, n=n, m=m, st=st):
+            r2 = random.Random(st)
+            return _crs(n, m, _rrows(r2, n, m, r2.choice([2, 4, 9]), integer))
+        both("sort_rows", mk)
+    # --- spgemm_saad
+    I = lambda v: F(v)
+    fixed_saad = [
+        (0, 0, [], 0, []), (0, 2, [], 3, [[], []]), (1, 1, [[(0, I(2))]], 1, [[(0, I(3))]]),
+        (1, 1, [[]], 1, [[(0, I(3))]]), (1, 1, [[(0, I(2))]], 1, [[]]),
+        (2, 2, [[(0, I(2))], [(1, I(3))]], 2, [[(0, I(4))], [(1, I(5))]]),            # diagonal x diagonal
+        (3, 3, [[], [(0, I(1)), (2, I(1))], []], 2, [[(1, I(2))], [], [(1, I(3)), (0, I(1))]]),   # empty rows
+        (2, 2, [[(1, I(1)), (1, I(2)), (0, I(1))], [(0, I(1)), (0, I(1))]], 3, [[(2, I(1)), (2, I(1)), (0, I(2))], [(2, I(3)), (1, I(1))]]),  # duplicates
+        (2, 3, [[(0, I(1)), (1, I(1)), (2, I(1))], [(2, I(1)), (1, I(1)), (0, I(1))]], 0, [[], [], []]),   # B without columns
+        (3, 1, [[(0, I(1))], [(0, I(2))], [(0, I(3))]], 4, [[(3, I(1)), (1, I(1)), (2, I(1)), (0, I(1))]]),  # every row needs sorting
+    ]
+    for n, kk, ra, m, rb in fixed_saad:
+        for srt in (0, 1):
+            both("saad", lambda integer, n=n, kk=kk, ra=ra, m=m, rb=rb, srt=srt: "%s %s %d" % (_crs(n, kk, ra), _crs(kk, m, rb), srt))
+    N = 250 if tier == "quick" else 2500
+    for _ in range(N):
+        n = r.choice([1, 2, 3, 5, 8]); kk = r.choice([1, 2, 3, 5, 8]); m = r.choice([1, 2, 3, 6, 10]); srt = r.randint(0, 1)
+        dup = r.random() < 0.3
+        st = r.getrandbits(48)
+        def mk(integer, n=n, kk=kk, m=m, srt=srt, dup=dup, st=st):
+            r2 = random.Random(st)
+            ra = _rrows(r2, n, kk, r2.choice([2, 4]), integer, dup); rb = _rrows(r2, kk, m, r2.choice([2, 5]), integer, dup)
+            return "%s %s %d" % (_crs(n, kk, ra), _crs(kk, m, rb), srt)
+        both("saad", mk)
+    return out
+
+LL2_WHAT = {"sort_rows": "backend::sort_rows / detail::sort_row (LowLevel2.v; theorems C10_ll2_sort_row, C10_ll2_sort_rows)",
+            "saad": "backend::spgemm_saad (LowLevel2G.v; theorem C10_ll2_spgemm_saad)"}
+
+def run_ll2(ctx, lines):
+    def kern(l): return l.split(" ", 2)[1].split("_", 1)[1]
+    def nontrivial(op, payload, impl_out):
+        return impl_out is not None and impl_out.startswith("{") and "col=[]" not in impl_out
+    fails, impl, model = diff_run(ctx, "ll2", lines, nontrivial=nontrivial, shards=8,
+                                  theorem="C10-A2 correspondence: raw result arrays of the amgcl kernel vs the arrays of the array-level model with uninitialised cells (coq/LowLevel2*.v)")
+    for f in fails:
+        f["theorem"] += " -- " + LL2_WHAT.get(kern(f["case"]), kern(f["case"]))
+    seen = set(f["case"] for f in fails)
+    def compare(out, label, why):
+        for l in lines:
+            cid = l.split(" ", 1)[0]
+            ctx["stats"]["oracle_checks"] += 1
+            o = out.get(cid); m = model.get(cid)
+            if o != m and l not in seen:
+                seen.add(l)
+                fails.append(dict(kind="counterexample", case=l, impl=o, model=m, op=l.split(" ", 2)[1], size=len(l), build=label,
+                                  theorem="C10-A2: %s -- %s" % (why, LL2_WHAT.get(kern(l), kern(l)))))
+    fills = ["00", "FF", "rand"] if ctx["tier"] == "quick" else ["00", "FF", "AA", "55", "rand"]
+    for fl in fills:
+        compare(ctx["run_driver"](ctx["cpp"]["ll2@poison"], lines, env_extra={"VQ_POISON_FILL": fl}, shards=8),
+                "poison", "result arrays under a poisoned heap (fill %s) differ from the model (a never-written cell is read or returned)" % fl)
+    compare(ctx["run_driver"](ctx["cpp"]["ll2@asan"], lines, env_extra={"ASAN_OPTIONS": "detect_leaks=1:abort_on_error=0", "UBSAN_OPTIONS": "print_stacktrace=1"}, shards=8),
+            "asan", "AddressSanitizer/UBSan report, crash or different arrays")
+    compare(ctx["run_driver"](ctx["cpp"]["ll2"], lines, env_extra={"OMP_NUM_THREADS": "3"}, shards=8),
+            "omp3", "result arrays with 3 OpenMP threads differ from the one-thread model")
+    for f in fails:
+        f["site"] = "ll2/" + kern(f["case"]); f.setdefault("build", "exact"); f["input_class"] = f["case"].split(" ", 2)[1]
+    return fails
+
+def _is_ll2(l): return l.split(" ", 2)[1:2] and l.split(" ", 2)[1].startswith(("ll_", "lld_"))
+
 def run(ctx, cases_override=None):
     own_override = [l for l in (cases_override or []) if l.split(" ", 2)[1:2] == ["own"]]
     if cases_override and len(own_override) == len(cases_override):
         return run_own(ctx, own_override)
+    ll2_override = [l for l in (cases_override or []) if _is_ll2(l)]
+    if cases_override and len(ll2_override) == len(cases_override):
+        return run_ll2(ctx, ll2_override)
     own_fails = [] if cases_override else run_own(ctx, own_cases(ctx["tier"], ctx["seed"]))
-    return own_fails + run_amg(ctx, cases_override)
+    ll2_fails = [] if cases_override else run_ll2(ctx, ll2_cases(ctx["tier"], ctx["seed"]))
+    return own_fails + ll2_fails + run_amg(ctx, cases_override)
 
 def run_amg(ctx, cases_override=None):
     cases = make_cases(ctx["tier"], ctx["seed"])
